@@ -10,13 +10,15 @@ def parseSRCToJson(refcode, word2, word3, word4, word5, word6, word7, word8, wor
     verif_fixture.CALLS.append(('src', NAME, refcode, words))
     beh = 'prog'
     if beh == 'prog':
-        beh = {'0': 'ok', '1': 'null', '2': 'empty', '3': 'raise', '4': 'importerror', '5': 'raise_empty'}.get(word2[-1], 'ok')
+        beh = {'0': 'ok', '1': 'null', '2': 'empty', '3': 'raise', '4': 'importerror', '5': 'raise_empty', '6': 'pynone'}.get(word2[-1], 'ok')
     if beh == 'ok':
         return json.dumps({'Fixture SRC Parser': NAME, 'Fixture Refcode': refcode, 'Fixture Words': words})
     if beh == 'null':
         return json.dumps(None)
     if beh == 'empty':
         return ''
+    if beh == 'pynone':
+        return None               # a parser that returns nothing at all
     if beh == 'raise':
         raise verif_fixture.failure(NAME, ''.join(words))
     if beh == 'raise_empty':
